@@ -129,7 +129,7 @@ def write_replay(check_id, flavour, case, violation, verif_seed, extra=None):
     if extra:
         body.update(extra)
     h = hashlib.sha1(canon([check_id, case]).encode("utf-8", "surrogatepass")).hexdigest()[:16]
-    d = os.path.join(VERIF, "replays", check_id)
+    d = os.path.join(os.environ.get("VERIF_REPLAY_DIR", os.path.join(VERIF, "replays")), check_id)
     os.makedirs(d, exist_ok=True)
     path = os.path.join(d, h + ".json")
     with open(path, "w") as f:
@@ -360,8 +360,9 @@ def run_check(check_id, tier, collect=False, plan_override=None):
         "wall_s": round(time.time() - t0, 2),
         "violations": len(set(p for p, _ in violations)),
     }
-    os.makedirs(os.path.join(VERIF, "evidence"), exist_ok=True)
-    with open(os.path.join(VERIF, "evidence", check_id + ".json"), "w") as f:
+    evdir = os.environ.get("VERIF_EVIDENCE_DIR", os.path.join(VERIF, "evidence"))
+    os.makedirs(evdir, exist_ok=True)
+    with open(os.path.join(evdir, check_id + ".json"), "w") as f:
         json.dump(ev, f, indent=1, default=repr, sort_keys=True)
     print("%s %s: %d cases (%d distinct non-trivial), %d discarded, %d excluded, %.0fs, status %d" % (
         check_id, tier, total["evaluations"], len(hashes), sum(discarded.values()), sum(excluded.values()), time.time() - t0, status))
